@@ -144,6 +144,29 @@ Theorem C14_construction_passes_erase_check : forall frontier children c c',
 Proof. exact into_ssa_passes_erase_check. Qed.
 Print Assumptions C14_construction_passes_erase_check.
 
+(* Cytron et al.'s theorem for this construction: the output satisfies the DYNAMIC statement
+   of C14 on EVERY path from the entry (no bound on length or loop unrolling): every read names
+   the version most recently assigned on that path, every phi finds the arriving version
+   among its arguments.  Hypotheses:
+     ssa_dyn_pre_ok c   (Model.SsaPre, decidable, evaluated per explored definition) the graph before
+                        conversion: pre_ssa_ok, at least one block, no variable carries a version,
+                        update expressions stand only as  x = update(x, ..) , the Local tag of an
+                        assignment agrees with the declarations, parameters are pairwise distinct,
+                        successors are blocks of the graph and never the entry block
+     children_treeb     (decidable) the pre-order of the children table holds every block exactly once
+     creach c           every block is reachable from block 0
+     children_sound     the parent of a child is its immediate dominator    } path-based definitions of
+     frontier_exact     the frontier table is the dominance frontier        } Spec.SsaDomSpec (as C15's) *)
+Require Import Spec.SsaDomSpec Proofs.SsaDominance.
+Theorem C14_construction_paths_ok : forall frontier children c c',
+  ssa_dyn_pre_ok c = true ->
+  children_treeb children (length (c_blocks c)) = true ->
+  creach c -> children_sound c children -> frontier_exact c frontier ->
+  into_ssa frontier children c = SOk c' ->
+  forall pi, path_from_entry c' pi -> exists L, exec_path c' (params_map (c_params c')) pi = Some L.
+Proof. exact into_ssa_paths_ok. Qed.
+Print Assumptions C14_construction_paths_ok.
+
 (* non-vacuity: a two-block loop graph  x.1 = phi(x.0, x.2); x.2 = x.1 + 1  is
    accepted, and the same graph reading the stale x.0 in the loop is rejected *)
 Definition k0 : know := {| kval := None; kdeg := None |}.
@@ -229,3 +252,42 @@ Example C14_construction_example :
     erase_check loop_pre c' = true /\
     ssa_check (with_stmt_decls c') [None; Some 0%N; Some 1%N] = true.
 Proof. vm_compute. eexists. repeat split. Qed.
+
+(* ---- the dominance hypotheses of C14_construction_paths_ok are what C15 proves ----
+   For a graph whose predecessor / successor lists are rooted (Spec.DomSpec.rooted, C15's
+   hypothesis) the mirror of DominatorTree::new returns a tree t (C15_no_panic) whose frontier
+   and children masks, enumerated in ANY order (the HashSet iteration orders), are tables that
+   satisfy creach / children_sound / frontier_exact (Proofs.SsaDomBridge, from
+   C15_frontier_exact, C15_dom_tree_children_invert_idom, C15_idom_exact) and children_treeb
+   (the pre-order of an immediate-dominator tree holds every block once: the number of
+   dominators grows strictly from parent to child, Proofs.SsaTreeRank).  So the construction
+   run on the computed tables satisfies the dynamic statement; what remains as hypothesis
+   about the graph handed to SSA conversion is decidable (ssa_dyn_pre_ok, evaluated per
+   explored definition) or C15's own hypothesis (rooted). *)
+Require Spec.DomSpec Model.Dom Proofs.SsaDomBridge.
+From Coq Require Import Permutation.
+Theorem C14_construction_paths_ok_on_computed_tables : forall c ord horder t c',
+  DomSpec.rooted (SsaDomBridge.graph_of c) -> DomSpec.order_ok ord -> (forall l, Permutation (horder l) l) ->
+  Dom.dominator_tree (Dom.dom_fuel (SsaDomBridge.graph_of c)) ord (SsaDomBridge.graph_of c) = Ok t ->
+  ssa_dyn_pre_ok c = true ->
+  into_ssa (SsaDomBridge.sets_of horder (Dom.dt_frontier t)) (SsaDomBridge.sets_of horder (Dom.dt_children t)) c = SOk c' ->
+  forall pi, path_from_entry c' pi -> exists L, exec_path c' (params_map (c_params c')) pi = Some L.
+Proof. exact SsaDomBridge.into_ssa_paths_ok_c15. Qed.
+Print Assumptions C14_construction_paths_ok_on_computed_tables.
+
+(* the hypotheses of C14_construction_paths_ok hold for the loop graph above (the dominance
+   hypotheses through the bridge: the mirror of DominatorTree::new computes exactly
+   loop_frontier and loop_children for it) ... *)
+Example C14_construction_paths_hypotheses_satisfiable :
+  ssa_dyn_pre_ok loop_pre = true /\ children_treeb loop_children (length (c_blocks loop_pre)) = true /\
+  creach loop_pre /\ children_sound loop_pre loop_children /\ frontier_exact loop_pre loop_frontier.
+Proof. exact SsaDomBridge.Example.loop_hypotheses. Qed.
+(* ... so every path through its SSA form executes, however often the loop is taken *)
+Example C14_construction_paths_example :
+  exists c', into_ssa loop_frontier loop_children loop_pre = SOk c' /\
+    forall pi, path_from_entry c' pi -> exists L, exec_path c' (params_map (c_params c')) pi = Some L.
+Proof.
+  destruct C14_construction_paths_hypotheses_satisfiable as (H1 & H2 & H3 & H4 & H5).
+  destruct (into_ssa loop_frontier loop_children loop_pre) as [c'| | |] eqn:E; try (vm_compute in E; discriminate E).
+  exists c'. split; [reflexivity|]. exact (C14_construction_paths_ok _ _ _ _ H1 H2 H3 H4 H5 E).
+Qed.
